@@ -164,6 +164,39 @@ func checkC01(c *Ctx, r *Report) {
 	checkManagerPassThrough(c, r, "C01.d")
 	checkHiddenSemantics(c, r, "C01.a")
 	checkVisitorCursors(c, r, "C01.b")
+	// every package the loader returned is indexed (a package that loaded with errors under
+	// allowPackageLoadFailures still contributes the syntax that was parsed: its controllers)
+	if fi := need(c, r, "C01.a", "(*core/arbitrators.PackagesFacade).loadAndCacheExpressions"); fi != nil {
+		viol := ""
+		var sites []string
+		n := 0
+		for _, l := range w.rangeLoops(fi, w.rangeOverType(fi, "[]*golang.org/x/tools/go/packages.Package")) {
+			owner := w.ownerOf(fi, l)
+			target := w.callPred(owner, "(*core/arbitrators.PackagesFacade).cachePackage")
+			has := false
+			ast.Inspect(l.Body, func(n ast.Node) bool {
+				if target(n) {
+					has = true
+				}
+				return !has
+			})
+			if !has {
+				continue // (the loop that collects load errors)
+			}
+			n++
+			ss, v := w.eachIteration(owner, w.cfgOf(owner), l, target, nil, true)
+			sites = append(sites, ss...)
+			if v != "" {
+				viol = v + " (a package the loader returned is not cached: its files - and the controllers in them - are not walked)"
+			}
+		}
+		if n == 0 {
+			viol = "no loop over the loaded packages that caches them"
+			sites = []string{w.pos(fi.Decl.Pos())}
+		}
+		o := r.add("C01.a", "each-iteration", fi.Key+":range(loaded packages)->cachePackage", "every package returned by the loader is cached (no package is left out because it loaded with errors)", []string{fi.Key}, sites, viol)
+		o.NonTrivial = true
+	}
 
 	// IsHiddenAsset semantic skeleton: true iff Type == HideMethodAlways
 	if fi := need(c, r, "C01.a", "generator/swagen/swagtool.IsHiddenAsset"); fi != nil {
